@@ -247,6 +247,7 @@ def planCore (pm : Nat → Bytes → Bool) (fs : Fs) (inv : Inv) : Option Plan :
   if (useStdin || output.isEmpty) && inv.sync then none
   else if useStdin && (inv.bundle || inv.recursive) then none
   else if output.isEmpty && inv.recursive && !inv.bundle then none
+  else if inv.bundle && inv.sync then none
   else if mimetype.isEmpty && useStdin then none
   else if !mimetype.isEmpty && inv.sync then none
   else if inputs.contains dash then none
